@@ -1,3 +1,4 @@
+import re
 from collections.abc import Iterable
 
 from formulaic.utils.code import format_expr, sanitize_variable_names
@@ -31,7 +32,12 @@ def sanitize_python_code(expr: str) -> str:
     expr = format_expr(
         sanitize_variable_names(expr, {}, aliases, template="_formulaic_{}")
     )
-    while aliases:
-        alias, orig = aliases.popitem()
-        expr = expr.replace(alias, f"`{orig}`")
+    if aliases:
+        expr = re.sub(
+            r"\b(?:"
+            + "|".join(sorted(map(re.escape, aliases), key=len, reverse=True))
+            + r")\b",
+            lambda match: f"`{aliases[match.group(0)]}`",
+            expr,
+        )
     return expr
